@@ -415,7 +415,30 @@ fn check_tuple(t: &Tuple, obs: &mut Obs) -> CaseResult {
             }
         }
     }
+    // the negated form of every comparison (an evaluator may rewrite `NOT (x < y)` into `x >= y`,
+    // which is not the same thing for NaN, null and incomparable operands)
+    let mut nat = [[0usize; 3]; 3];
+    for i in 0..3 {
+        for j in 0..3 {
+            nat[i][j] = q.exprs.len();
+            for op in CMP_OPS {
+                q.add(format!("NOT ({} {op} {})", names[i], names[j]));
+            }
+        }
+    }
     let row = run_cols(&q, &bd)?;
+    for i in 0..3 {
+        for j in 0..3 {
+            for (k, op) in CMP_OPS.iter().enumerate() {
+                let what = format!("{} {op} {}", xl::show(&vals[i]), xl::show(&vals[j]));
+                let plain = tri(&row[at[i][j] + k], &what)?;
+                let negated = tri(&row[nat[i][j] + k], &format!("NOT ({what})"))?;
+                if negated != k_not(plain) {
+                    fail!(format!("not-of-comparison:{op}:{}", pair_label(&vals[i], &vals[j])), "{what} is {} but NOT ({what}) is {}", t3(plain), t3(negated));
+                }
+            }
+        }
+    }
     let mut cmp = Vec::new();
     for i in 0..3 {
         let mut r = Vec::new();
@@ -682,7 +705,7 @@ pub fn run(ctx: &mut RunCtx) {
     ctx.explore(
         "tuples",
         "value triples (numeric triples related through type change / +-1 / ulp steps around 2^53 and 2^63, strings incl. temporal-looking ones, lists, maps, nulls) as literals or parameters; 54 comparison results checked against exact equality/order and against each other (symmetry, converse, trichotomy, transitivity), 26 null-propagation results, 8 arithmetic results against the documented overflow rule; non-trivial = the triple contains a boundary number (|v| >= 2^53-2, non-finite, -0.0) or a null",
-        ctx.tier.pick(60_000, 1_500_000),
+        ctx.tier.pick(240_000, 1_500_000),
         move || tuple_strategy(excl_temporal),
         check_tuple,
     );
@@ -690,7 +713,7 @@ pub fn run(ctx: &mut RunCtx) {
     ctx.explore(
         "folds",
         "integer lists near the i64 limits through reduce(+), reduce(*) (exact left fold with float fallback), sum() (exact i128 total, float only if a partial sum or the total overflows, never wrapped) and range() ending at the limits; non-trivial = some partial sum/product or the total overflows, or the range touches an i64 limit",
-        ctx.tier.pick(20_000, 500_000),
+        ctx.tier.pick(80_000, 500_000),
         fold_strategy,
         check_fold,
     );
